@@ -24,15 +24,17 @@ TIES_S = {
 }
 STREAM_GEN = ["C05_stream_gen", "C05_stream_gen_model", "C05_stream_read_gen", "C05_stream_truncated_gen"]
 FUEL = ["C05_truncated_decode", "C05_decode_no_fuel", "C05_fuel_irrelevant"]
+# wkb.Write call by call over a model of io.Writer (lean/GeomV/C05/Sink.lean, ProofsSink.lean)
+SINK = ["C05_sink_ok", "C05_sink_prefix", "C05_sink_limit", "C05_sink_limit_fresh", "C05_sink_unsupported", "C05_sink_unsupported_any"]
 SRC = ["C05_roundtrip_src", "C05_layout_src", "C05_mixed_order_src", "C05_decode_mixed_src", "C05_unsupported_src", "C05_hex_src",
        "C05_stream_model_src", "C05_truncated_src", "C05_roundtrip_iff_src", "C05_decoded_encodable_src"]
 COUNT = ["C05_decoded_encodable", "C05_roundtrip_iff", "C05_count_wraps"]
-BIN = ["C05_bin_uint32", "C05_bin_uint64", "C05_bin_put", "C05_bin_readU32", "C05_bin_readPoint", "C05_bin_write"]
+BIN = ["C05_bin_uint32", "C05_bin_uint64", "C05_bin_put", "C05_bin_readU32", "C05_bin_readPoint", "C05_bin_write", "C05_bin_readPoints", "C05_bin_writePoints"]
 # phase 3: the streaming entry point behind arbitrary scripted readers (lean/GeomV/C05/ProofsStream.lean)
 STREAM = ["C05_readfull", "C05_stream_model", "C05_stream_read", "C05_read_sequence", "C05_truncated", "C05_stream_truncated"]
 CFG = {
     "id": "C05",
-    "lean_modules": ["GeomV.C05.Proofs", "GeomV.C05.ProofsStream", "GeomV.C05.ProofsCount", "GeomV.C05.ProofsBin", "GeomV.C05.ProofsFuel", "GeomV.C05.Tie", "GeomV.C05.TieStream", "GeomV.C05.TieGenS"],
+    "lean_modules": ["GeomV.C05.Proofs", "GeomV.C05.ProofsStream", "GeomV.C05.ProofsCount", "GeomV.C05.ProofsBin", "GeomV.C05.ProofsFuel", "GeomV.C05.ProofsSink", "GeomV.C05.Tie", "GeomV.C05.TieStream", "GeomV.C05.TieGenS"],
     "exe": "geomv_c05",
     "go_cmd": "c05",
     "stages": ["go:gen", "lean:prep", "go:impl", "lean:judge"],
@@ -40,7 +42,7 @@ CFG = {
                                  "C05_type_preserved", "C05_unsupported", "C05_hex", "C05_hex_lower"]
                                 + [n for n in TIES if n != "tie_dispatch"] + SRC]
                  + [T + "Stream." + n for n in STREAM] + [T + n for n in COUNT] + [T + "BinStd." + n for n in BIN]
-                 + [T + "GenS." + n for n in TIES_S] + [T + n for n in STREAM_GEN] + [T + "Fuel." + n for n in FUEL],
+                 + [T + "GenS." + n for n in TIES_S] + [T + n for n in STREAM_GEN] + [T + "Fuel." + n for n in FUEL] + [T + "Sink." + n for n in SINK],
     "trusted_base": [
         "Lean 4.33.0 kernel; axioms of every theorem printed by #print axioms must be within {propext, Classical.choice, Quot.sound}",
         "T1: harness/cmd/c05/extract.go (go/ast, ~1900 lines, statement-level, subset listed in its header) regenerates lean/GeomV/C05/Gen.lean from "
